@@ -313,6 +313,8 @@ EDITS = {
         ("ut11", "crates/lib/mimium-lang/src/ast/program.rs", "                        TypedId::new(mangled_name, fnty),", "                        TypedId::new(name, fnty),", "verus", "use_tables"),
     ],
     "C20": [
+        ("iv01", "crates/lib/mimium-lang/src/compiler/mirgen.rs", "        crate::interpreter::Value::Code(expr) => machine.alloc_code(expr),\n        _ => panic!(\"unexpected return value type from macro {name}\"),", "        crate::interpreter::Value::Code(expr) => machine.alloc_code(expr),\n        crate::interpreter::Value::ErrorV(expr) => machine.alloc_code(expr),\n        _ => panic!(\"unexpected return value type from macro {name}\"),", "verus", "ffi_serde"),
+        ("iv02", "crates/lib/mimium-lang/src/compiler/mirgen.rs", "        crate::interpreter::Value::Number(n) => n.to_bits(),\n        crate::interpreter::Value::String(s) => {\n            machine.prog.strings.push(s.as_str().to_string());", "        crate::interpreter::Value::Number(n) => n.to_bits() | 1,\n        crate::interpreter::Value::String(s) => {\n            machine.prog.strings.push(s.as_str().to_string());", "verus", "ffi_serde"),
         ("se01", "crates/lib/mimium-lang/src/types/serde_impl.rs", 'serialize_struct_variant("Type", 2, "Tuple", 1)', 'serialize_struct_variant("Type", 7, "Tuple", 1)', "verus", "serde_enums"),
         ("se02", "crates/lib/mimium-lang/src/types/serde_impl.rs", '                sv.serialize_field("arg", arg)?;\n                sv.serialize_field("ret", ret)?;', '                sv.serialize_field("ret", ret)?;\n                sv.serialize_field("arg", arg)?;', "verus", "serde_enums"),
         ("se03", "crates/lib/mimium-lang/src/types/serde_impl.rs", "                        Ok(Type::Ref(t))", "                        Ok(Type::Code(t))", "verus", "serde_enums"),
